@@ -460,7 +460,11 @@ func genBuilt(rt *rapid.T) *built {
 		s := gen.HexBytes(rt, "to", 20)
 		t.To = &s
 	}
-	dl := gen.Len(rt, "data.len", 2000)
+	maxData := 2000
+	if rapid.IntRange(0, 11).Draw(rt, "data.big") == 0 {
+		maxData = 64000 // inputs up to 64 KiB (the quantifier's bound)
+	}
+	dl := gen.Len(rt, "data.len", maxData)
 	ds := gen.HexBytes(rt, "data", dl)
 	t.Data = &ds
 	mode := rapid.SampledFrom([]string{txmodel.ModeLegacy, txmodel.ModeEIP155, txmodel.ModeEIP1559}).Draw(rt, "mode")
